@@ -210,7 +210,8 @@ def execute(mcls, config, ops=None, rng=None, known=None, keep_events=False):
                     break
                 res.violation, res.vop, res.vindex = v, kind, i
                 break
-            m.stats.outcomes[outcome] = m.stats.outcomes.get(outcome, 0) + 1
+            oc = outcome.split("|")[0]      # "verdict|shape": only the verdict is tallied
+            m.stats.outcomes[oc] = m.stats.outcomes.get(oc, 0) + 1
             ev = jdump([kind, outcome, obs])
             h.update(ev.encode())
             if events is not None:
